@@ -45,10 +45,59 @@ theorem quote_safe_alphabet (bs : Bytes) (h : Bytes.WF bs) : ∀ c ∈ quoteByte
     c ≠ 35 ∧ c ≠ 61 ∧ c ≠ 43 ∧ c ≠ 124 ∧ c ≠ 0 ∧ c ≠ 92 :=
   fun c hc => isQuoteChar_spec c (quoteBytes_alphabet bs h c hc)
 
-/-- the link an HTTP / Gemini / Spartan listing shows for a local entry is `quote(selector)` -/
+/-- the link an HTTP / WAP listing shows for a local entry is `quote(selector)`, and `/` for the empty selector (a
+    link block with `Path=/`: the root, as the Gopher menu's empty selector and the Gemini / Spartan link say —
+    before repo commit "an empty local selector links to the root over HTTP and WAP too" the HREF was empty, which
+    a browser reads as the page it is on) -/
 theorem local_link_is_quote (srv : ServerId) (e : Entry) (hl : e.isLocal = true)
-    (hu : startsUrl e.selector = false) : linkUrl srv e = quote e.selector := by
+    (hu : startsUrl e.selector = false) :
+    linkUrl srv e = (quote e.selector).map fun q => if q.isEmpty then [47] else q := by
   simp [linkUrl, hu, hl]
+
+theorem quoteBytes_ne_nil (bs : Bytes) (h : bs ≠ []) : quoteBytes bs ≠ [] := by
+  cases bs with
+  | nil => exact absurd rfl h
+  | cons b r => unfold quoteBytes; split <;> simp
+
+theorem encodeSE_ne_nil (s : Str) (bs : Bytes) (h : encodeSE s = some bs) (hs : s ≠ []) : bs ≠ [] := by
+  cases s with
+  | nil => exact absurd rfl hs
+  | cons c cs =>
+    simp only [encodeSE] at h
+    cases hc : encodeCp c with
+    | none => simp [hc] at h
+    | some a =>
+      cases hcs : encodeSE cs with
+      | none => simp [hc, hcs] at h
+      | some b =>
+        simp only [hc, hcs, Option.some.injEq] at h
+        have ha : a ≠ [] := by
+          unfold encodeCp at hc
+          split at hc
+          · simp at hc; rw [← hc]; simp
+          · split at hc
+            · simp at hc; rw [← hc]; simp
+            · split at hc
+              · simp at hc; rw [← hc]; simp
+              · split at hc
+                · simp at hc
+                · split at hc
+                  · simp at hc; rw [← hc]; simp
+                  · split at hc
+                    · simp at hc; rw [← hc]; simp
+                    · simp at hc
+        rw [← h]; simp [ha]
+
+/-- ... so for every entry with a selector (every member of a directory) the link is `quote(selector)` itself -/
+theorem local_link_is_quote_of_selector (srv : ServerId) (e : Entry) (hl : e.isLocal = true)
+    (hu : startsUrl e.selector = false) (hne : e.selector ≠ []) : linkUrl srv e = quote e.selector := by
+  rw [local_link_is_quote srv e hl hu]
+  unfold quote
+  cases he : encodeSE e.selector with
+  | none => rfl
+  | some bs =>
+    have := quoteBytes_ne_nil bs (encodeSE_ne_nil _ _ he hne)
+    simp [this]
 
 theorem splitOn_no_sep (sep : Nat) (s : Str) (h : sep ∉ s) : splitOn sep s = [s] := by
   induction s with
